@@ -17,7 +17,9 @@ Record scfg := {
   s_reps : list (option Z * list Z);  (* representations: (ETag, bytes) *)
   s_rep_at : list Z;                  (* index of the representation that is current at request k (last repeats; [] = 0) *)
   s_atomic : bool;
-  s_mis : option (Z * Z)              (* (k, kind): the response to request k is mutated, see [mutate] *)
+  s_mis : option (Z * Z);             (* (k, kind): the response to request k is mutated, see [mutate] *)
+  s_bert : Z                          (* 0: a server on a datagram transport (no BERT).  b > 0: a server on a reliable transport (RFC 8323) that
+                                         sends BERT messages of up to b blocks of 1024 bytes where its policy allows size exponent 7 *)
 }.
 Record sstate := { sv_asm : list Z; sv_bodies : list (list Z); sv_step : Z }.
 Definition sstate0 : sstate := {| sv_asm := []; sv_bodies := []; sv_step := 0 |}.
@@ -25,7 +27,7 @@ Definition sstate0 : sstate := {| sv_asm := []; sv_bodies := []; sv_step := 0 |}
 Definition pol (l : list Z) (k d : Z) : Z := nth (Z.to_nat k) l (last l d).
 
 Definition plain (code : Z) : response :=
-  {| rs_code := code; rs_block1 := None; rs_block2 := None; rs_etag := None; rs_payload := []; rs_maxexp := 6 |}.
+  {| rs_code := code; rs_block1 := None; rs_block2 := None; rs_etag := None; rs_payload := []; rs_maxexp := 6; rs_observe := false |}.
 
 Definition BAD_REQUEST : Z := 128.
 Definition REQUEST_ENTITY_INCOMPLETE : Z := 136.
@@ -44,9 +46,9 @@ Definition slice_response (cfg : scfg) (k code : Z) (b1 req_b2 : option bt) : re
     let more := offset + size <? blen rep in
     {| rs_code := code; rs_block1 := b1;
        rs_block2 := match req_b2 with None => if more then Some (0, more, sszx) else None | Some _ => Some (offset / size, more, sszx) end;
-       rs_etag := etag; rs_payload := bslice rep offset (offset + size); rs_maxexp := 6 |}.
+       rs_etag := etag; rs_payload := bslice rep offset (offset + size); rs_maxexp := 6; rs_observe := false |}.
 
-Definition honest (cfg : scfg) (st : sstate) (rq : request) : sstate * response :=
+Definition honest_regular (cfg : scfg) (st : sstate) (rq : request) : sstate * response :=
   let k := sv_step st in
   match rq_block1 rq with
   | Some (n, m, szx) =>
@@ -62,7 +64,7 @@ Definition honest (cfg : scfg) (st : sstate) (rq : request) : sstate * response 
       if m then
         ({| sv_asm := asm'; sv_bodies := sv_bodies st; sv_step := k + 1 |},
          {| rs_code := if s_atomic cfg then CONTINUE else CHANGED; rs_block1 := Some (n, s_atomic cfg, aszx); rs_block2 := None;
-            rs_etag := None; rs_payload := []; rs_maxexp := 6 |})
+            rs_etag := None; rs_payload := []; rs_maxexp := 6; rs_observe := false |})
       else
         ({| sv_asm := []; sv_bodies := asm' :: sv_bodies st; sv_step := k + 1 |},
          slice_response cfg k CHANGED (Some (n, false, aszx)) (rq_block2 rq))
@@ -78,16 +80,72 @@ Definition honest (cfg : scfg) (st : sstate) (rq : request) : sstate * response 
     end
   end.
 
+(* ---- RFC 8323 section 6 (BERT): size exponent 7 means blocks of 1024 bytes, several per message.
+   Block1: NUM counts 1024-byte blocks, a non-final payload is a non-empty whole number of them; Block2: the server sends up to s_bert
+   blocks per message when the request (or, unasked, the server itself) uses exponent 7 and the policy of this step allows 7. *)
+Definition b1_unit (szx : Z) : Z := if szx =? 7 then 1024 else 2 ^ (szx + 4).
+Definition set_maxexp (mx : Z) (r : response) : response :=
+  {| rs_code := rs_code r; rs_block1 := rs_block1 r; rs_block2 := rs_block2 r; rs_etag := rs_etag r; rs_payload := rs_payload r; rs_maxexp := mx; rs_observe := rs_observe r |}.
+Definition remote_exp (cfg : scfg) : Z := if 0 <? s_bert cfg then 7 else 6.
+
+Definition respond (cfg : scfg) (k code : Z) (b1 req_b2 : option bt) : response :=
+  let want := match req_b2 with Some (_, _, s) => s | None => remote_exp cfg end in
+  if (want =? 7) && (7 <=? pol (s_policy2 cfg) k 6) then
+    let '(etag, rep) := nth (Z.to_nat (pol (s_rep_at cfg) k 0)) (s_reps cfg) (None, []) in
+    let n2 := match req_b2 with Some (n, _, _) => n | None => 0 end in
+    let size := 1024 * Z.max 1 (s_bert cfg) in
+    let offset := n2 * 1024 in
+    if (offset >? blen rep) || ((offset =? blen rep) && (0 <? n2)) then set_maxexp (remote_exp cfg) (plain BAD_REQUEST)
+    else
+      let more := offset + size <? blen rep in
+      {| rs_code := code; rs_block1 := b1;
+         rs_block2 := match req_b2 with None => if more then Some (0, more, 7) else None | Some _ => Some (n2, more, 7) end;
+         rs_etag := etag; rs_payload := bslice rep offset (offset + size); rs_maxexp := remote_exp cfg; rs_observe := false |}
+  else set_maxexp (remote_exp cfg) (slice_response cfg k code b1 req_b2).
+
+Definition honest_bert (cfg : scfg) (st : sstate) (rq : request) : sstate * response :=
+  let k := sv_step st in
+  let same := {| sv_asm := sv_asm st; sv_bodies := sv_bodies st; sv_step := k + 1 |} in
+  match rq_block1 rq with
+  | Some (n, m, szx) =>
+    let asm := if n =? 0 then [] else sv_asm st in
+    let len := blen (rq_payload rq) in
+    if negb (n * b1_unit szx =? blen asm) then (same, set_maxexp (remote_exp cfg) (plain REQUEST_ENTITY_INCOMPLETE))
+    else if (if szx =? 7 then m && ((len =? 0) || negb (len mod 1024 =? 0))
+             else (m && negb (len =? b1_unit szx)) || (negb m && (b1_unit szx <? len))) then (same, set_maxexp (remote_exp cfg) (plain BAD_REQUEST))
+    else
+      let asm' := asm ++ rq_payload rq in
+      let aszx := Z.min szx (pol (s_policy1 cfg) k 6) in
+      if m then
+        ({| sv_asm := asm'; sv_bodies := sv_bodies st; sv_step := k + 1 |},
+         {| rs_code := if s_atomic cfg then CONTINUE else CHANGED; rs_block1 := Some (n, s_atomic cfg, aszx); rs_block2 := None;
+            rs_etag := None; rs_payload := []; rs_maxexp := remote_exp cfg; rs_observe := false |})
+      else
+        ({| sv_asm := []; sv_bodies := asm' :: sv_bodies st; sv_step := k + 1 |}, respond cfg k CHANGED (Some (n, false, aszx)) (rq_block2 rq))
+  | None =>
+    match rq_block2 rq with
+    | Some (n2, _, _) =>
+      if 0 <? n2 then (same, respond cfg k CONTENT None (rq_block2 rq))
+      else ({| sv_asm := []; sv_bodies := rq_payload rq :: sv_bodies st; sv_step := k + 1 |}, respond cfg k CONTENT None (rq_block2 rq))
+    | None => ({| sv_asm := []; sv_bodies := rq_payload rq :: sv_bodies st; sv_step := k + 1 |}, respond cfg k CONTENT None None)
+    end
+  end.
+
+Definition szx_is_7 (b : option bt) : bool := match b with Some (_, _, s) => s =? 7 | None => false end.
+Definition is_bert_request (rq : request) : bool := szx_is_7 (rq_block1 rq) || szx_is_7 (rq_block2 rq).
+Definition honest (cfg : scfg) (st : sstate) (rq : request) : sstate * response :=
+  if is_bert_request rq || (0 <? s_bert cfg) then honest_bert cfg st rq else honest_regular cfg st rq.
+
 Definition map_b1 (f : bt -> bt) (r : response) : response :=
-  {| rs_code := rs_code r; rs_block1 := option_map f (rs_block1 r); rs_block2 := rs_block2 r; rs_etag := rs_etag r; rs_payload := rs_payload r; rs_maxexp := rs_maxexp r |}.
+  {| rs_code := rs_code r; rs_block1 := option_map f (rs_block1 r); rs_block2 := rs_block2 r; rs_etag := rs_etag r; rs_payload := rs_payload r; rs_maxexp := rs_maxexp r; rs_observe := rs_observe r |}.
 Definition map_b2 (f : bt -> bt) (r : response) : response :=
-  {| rs_code := rs_code r; rs_block1 := rs_block1 r; rs_block2 := option_map f (rs_block2 r); rs_etag := rs_etag r; rs_payload := rs_payload r; rs_maxexp := rs_maxexp r |}.
+  {| rs_code := rs_code r; rs_block1 := rs_block1 r; rs_block2 := option_map f (rs_block2 r); rs_etag := rs_etag r; rs_payload := rs_payload r; rs_maxexp := rs_maxexp r; rs_observe := rs_observe r |}.
 Definition set_code (c : Z) (r : response) : response :=
-  {| rs_code := c; rs_block1 := rs_block1 r; rs_block2 := rs_block2 r; rs_etag := rs_etag r; rs_payload := rs_payload r; rs_maxexp := rs_maxexp r |}.
+  {| rs_code := c; rs_block1 := rs_block1 r; rs_block2 := rs_block2 r; rs_etag := rs_etag r; rs_payload := rs_payload r; rs_maxexp := rs_maxexp r; rs_observe := rs_observe r |}.
 Definition set_payload (p : list Z) (r : response) : response :=
-  {| rs_code := rs_code r; rs_block1 := rs_block1 r; rs_block2 := rs_block2 r; rs_etag := rs_etag r; rs_payload := p; rs_maxexp := rs_maxexp r |}.
+  {| rs_code := rs_code r; rs_block1 := rs_block1 r; rs_block2 := rs_block2 r; rs_etag := rs_etag r; rs_payload := p; rs_maxexp := rs_maxexp r; rs_observe := rs_observe r |}.
 Definition set_etag (e : option Z) (r : response) : response :=
-  {| rs_code := rs_code r; rs_block1 := rs_block1 r; rs_block2 := rs_block2 r; rs_etag := e; rs_payload := rs_payload r; rs_maxexp := rs_maxexp r |}.
+  {| rs_code := rs_code r; rs_block1 := rs_block1 r; rs_block2 := rs_block2 r; rs_etag := e; rs_payload := rs_payload r; rs_maxexp := rs_maxexp r; rs_observe := rs_observe r |}.
 
 (* the misbehaving-server variants: one response of an otherwise honest exchange is altered *)
 Definition mutate (kind : Z) (r : response) : sresult :=
